@@ -159,26 +159,35 @@ def add_item_producers(w):
                      'SQLiteAlterTableSQLResult.sql[self]', 'SQLiteAlterTableSQLResult.post_sql[self]'],
            ensures=['self.evolver is evolver', 'self.model is model', 'same(self.alter_table, alter_table)'],
            note='AlterTableSQLResult.__init__ stores its arguments (alter_table or [])')
+    # what add_index is told: (table, first column, number of columns, unique) per call, in order
+    w.ghost_var('idx_log', K.Seq(K.Tuple(K.Str, K.Str, K.Int, K.Bool)))
     w.stub('DbState.add_index', params={'self': K.Ref('DbState'), 'table_name': K.Str, 'index_name': K.Str,
                                         'columns': K.Seq(K.Str), 'unique': K.Bool}, defaults={'unique': False},
-           may_raise=['Exception'], note='index bookkeeping (C01 bounded suite)')
+           may_raise=['Exception'],
+           effects=['idx_log = idx_log + [(table_name, sel(columns, 0) if len(columns) > 0 else "", len(columns), unique)]'],
+           note='records the index in the in-memory database state, which later operations of the same run consult by '
+                'column name')
     w.stub('EvolutionOperations.get_new_constraint_name', params={'self': K.Ref('EvolutionOperations'), 'table_name': K.Str,
                                                                   'column': K.Str}, returns=K.Str, pure=True, reads=())
     w.stub('create_index_name', params={'connection': K.Ref('Conn'), 'table_name': K.Str, 'field_names': K.Seq(K.Str),
                                         'col_names': K.Seq(K.Str)}, returns=K.Str, pure=True)
     ONE = "len(result.alter_table) == 1 and %s" % WF_ITEM.format(it='sel(result.alter_table, 0)')
     w.contract(
-        'EvolutionOperations.add_column', module=SQLITE, serves=['C02', 'C01'],
+        'EvolutionOperations.add_column', module=SQLITE, serves=['C02', 'C01', 'C03'],
         params={'self': K.Ref('EvolutionOperations'), 'model': K.Ref('Model'), 'field': FIELD, 'initial': K.Opt(INITV)},
-        returns=R, raises={'Exception': True}, modifies=['*heap'],
+        returns=R, raises={'Exception': True}, modifies=['*heap', 'idx_log'],
         ensures=[ONE, "sel(result.alter_table, 0)['op'] == 'ADD COLUMN'",
                  # the queued item names this field and carries exactly the declared initial value
                  "sel(result.alter_table, 0)['field'] is field", "sel(result.alter_table, 0)['initial'] == initial",
-                 'result.model is model', 'fresh_ref(result)'])
+                 'result.model is model', 'fresh_ref(result)',
+                 # the index the new column gets is recorded for this table under the COLUMN name, once
+                 'len(idx_log) == len(old(idx_log)) + (1 if old(field.unique or field.primary_key or field.db_index) else 0)',
+                 'implies(len(idx_log) > len(old(idx_log)), sel(idx_log, len(old(idx_log))) == '
+                 '        (old(model._meta.db_table), old(field.column), 1, old(field.unique or field.primary_key)))'])
     w.contract(
         'EvolutionOperations._change_attribute', module=SQLITE, inline=True,
         params={'self': K.Ref('EvolutionOperations'), 'model': K.Ref('Model'), 'field': FIELD, 'attr_name': K.Str,
-                'new_attr_value': K.Bool, 'initial': K.Opt(INITV)}, defaults={'initial': None}, returns=R)
+                'new_attr_value': None, 'initial': K.Opt(INITV)}, defaults={'initial': None}, returns=R)
     w.contract(
         'EvolutionOperations.change_column_attr_null', module=SQLITE, serves=['C02'],
         params={'self': K.Ref('EvolutionOperations'), 'model': K.Ref('Model'), 'mutation': K.Ref('MutationObj'),
@@ -189,6 +198,25 @@ def add_item_producers(w):
                  "sel(result.alter_table, 0)['field'] is field", "sel(result.alter_table, 0)['initial'] == mutation.initial",
                  'field.null == new_value', 'result.model is model'],
         note='_change_attribute is analysed inline (setattr with the constant attribute name "null")')
+    for fname, attr, vkind in (('change_column_attr_max_length', 'max_length', K.Int),):
+        w.classes['Field']['fields'].setdefault(attr, vkind)
+        w.contract(
+            'EvolutionOperations.%s' % fname, module=SQLITE, serves=['C02'],
+            params={'self': K.Ref('EvolutionOperations'), 'model': K.Ref('Model'), 'mutation': K.Ref('MutationObj'),
+                    'field': FIELD, 'old_value': vkind, 'new_value': vkind},
+            returns=R, modifies=['*heap'],
+            ensures=[ONE, "sel(result.alter_table, 0)['op'] == 'MODIFY COLUMN'", "sel(result.alter_table, 0)['field'] is field",
+                     # no stored value is rewritten: the rebuild copies the column as it is
+                     "sel(result.alter_table, 0)['initial'] is None", 'result.model is model'])
+    w.classes['Field']['fields'].setdefault('_unique', K.Bool)
+    w.contract(
+        'EvolutionOperations.get_change_unique_sql', module=SQLITE, serves=['C02'],
+        params={'self': K.Ref('EvolutionOperations'), 'model': K.Ref('Model'), 'field': FIELD, 'new_unique_value': K.Bool,
+                'constraint_name': K.Opt(K.Str), 'initial': K.Opt(INITV)},
+        returns=R, modifies=['*heap'],
+        ensures=[ONE, "sel(result.alter_table, 0)['op'] == 'MODIFY COLUMN'", "sel(result.alter_table, 0)['field'] is field",
+                 # changing uniqueness never replaces NULLs: the mutation's initial value does not travel with it
+                 "sel(result.alter_table, 0)['initial'] is None", 'result.model is model'])
     w.contract(
         'EvolutionOperations.delete_column', module=SQLITE, serves=['C02', 'C01'],
         params={'self': K.Ref('EvolutionOperations'), 'model': K.Ref('Model'), 'field': FIELD},
